@@ -7,7 +7,7 @@ SPEC = {
                  "C14_obj_words", "C14_k14_objects", "K14_refuted", "K14_refuted_length", "C14_nonvacuous"],
     "allowed_axioms": [],
     "extract": {
-        "LibTw2.Model.Codec": ["decode_sysgame", "decode_connless", "encode_msg", "decode_snap_obj",
+        "LibTw2.Model.Codec": ["decode_sysgame", "decode_connless", "encode_msg", "find_codec", "decode_snap_obj",
                                "encode_obj_bytes", "obj_size"],
         "LibTw2.Gen.Rs_tw05": ["codecs", "objs"],
         "LibTw2.Gen.Rs_tw06": ["codecs", "objs"],
